@@ -454,6 +454,11 @@ class Polyline:
         With `ret_new_indices=True`, also returns the new indices of the
         original vertices and the new indices of the inserted points.
         """
+        if np.ndim(segment_indices) != 1:
+            raise ValueError(
+                "segment_indices should be a one-dimensional array or list of indices"
+            )
+
         # `mean()`, unlike `np.average()`, copes with an empty set of segments.
         geometric_midpoints = self.segments[segment_indices].mean(axis=1)
         return self.with_insertions(
